@@ -421,6 +421,12 @@ class World:
         """Same final settings on a freshly built dataset give the same selection."""
         ctx = self.ctx
         ds = self.ds
+        cfg0 = ds.config["filtering"]
+        for f in FEATS:
+            if (f + " min" in cfg0) != (f + " max" in cfg0):
+                # the history ends with a half-entered range: drop it (settings that cannot be applied have no selection)
+                cfg0.pop(f + " min", None)
+                cfg0.pop(f + " max", None)
         self.apply_and_check([])
         fresh = self.build() if self.backing == "dict" else None
         if fresh is None:
